@@ -4,7 +4,7 @@ cd /verif || exit 1
 . /verif/lib.sh
 mkdir -p bin evidence replays .ov
 (cd $REPO && go build ./... ) || exit 1
-for eng in kexplore inputx; do
+for eng in kexplore inputx storex; do
   vbuild $eng || exit 1
 done
 echo "setup ok"
